@@ -67,6 +67,24 @@ def _scalar_only(t):
         (t[0] == 'un' and _scalar_only(t[2])) or (t[0] == 'pct' and _scalar_only(t[1]))
 
 
+def _display_sensitive(t):
+    """The tree joins (&) a number of very large or very small magnitude to text: how such a number is displayed is C02's
+    question (KF-C02-3), not the grammar's - the tree is still decided by the exported text and by value = value of the export."""
+    k = t[0]
+    if k in ('num', 'str', 'ref'):
+        return False
+    subs = [x for x in t[1:] if isinstance(x, tuple)]
+    if k == 'bin' and t[1] == '&':
+        for x in (t[2], t[3]):
+            try:
+                v = spec_eval(x)
+            except Exception:
+                return True
+            if isinstance(v, float) and v != 0 and not (1e-4 <= abs(v) < 1e15):
+                return True
+    return any(_display_sensitive(x) for x in subs)
+
+
 def _check_tree(case):
     """tree, spelling -> the real parser must produce the tree's rendering and value."""
     from formulas.errors import FormulaError
@@ -86,7 +104,7 @@ def _check_tree(case):
         return '%s: evaluation raised %s' % (text, type(ex).__name__)
     if not _same_value(v1, v2):
         return '%s evaluates to %r but its exported text %s to %r' % (text, v1, want, v2)
-    if _scalar_only(tree):
+    if _scalar_only(tree) and not _display_sensitive(tree):
         v3 = spec_eval(tree)
         if not _same_value(v1, v3):
             return '%s evaluates to %r, the tree %s has value %r' % (text, v1, want, v3)
